@@ -46,8 +46,9 @@ designations are therefore rejected -/
 theorem accepted_is_valid (bytes : List Nat) (z : Zone) (h : parse bytes = .ok z) : ZoneValid z :=
   post_spec (post_parse bytes) h
 
-/-- an accepted rule has rule days in range, rule times below one week in magnitude and offsets of
-at most 24:59:59 (+1 h for a defaulted DST offset) -/
+/-- an accepted rule has rule days in range, rule times below one week in magnitude, offsets of
+at most 24:59:59 (+1 h for a defaulted DST offset), the standard type flagged non-DST and the
+daylight type flagged DST, and legal 3–7 character designations on both -/
 theorem rule_accepted_is_valid (text : List Nat) (ext : Bool) (r : Rule)
     (h : from_tz_string text ext = .ok r) : RuleV r :=
   post_spec (post_from_tz_string text ext) h
@@ -60,6 +61,17 @@ theorem rejects_bad_magic (bytes : List Nat) (h : bytes.take 4 ≠ MAGIC) : pars
 theorem rejects_bad_version (bytes : List Nat) (h : versionOf ((bytes.drop 4).take 1) = none) :
     parse bytes = .err :=
   rejects_bad_version' bytes h
+
+/-- a footer (everything after the second data block of a v2/v3 file) that does not both start and
+end with a newline is rejected -/
+theorem rejects_footer_framing (footer : List Nat) (v : Version)
+    (h : ¬ (footer.head? = some 10 ∧ footer.getLast? = some 10)) : parseFooter footer v = .err :=
+  footer_framing' footer v h
+
+/-- a footer whose TZ string starts with ':' or contains a NUL is rejected -/
+theorem rejects_footer_colon_nul (footer : List Nat) (v : Version)
+    (h : (trimWs footer).head? = some 58 ∨ 0 ∈ trimWs footer) : parseFooter footer v = .err :=
+  footer_colon_nul' footer v h
 
 /-! ### well-formed data is accepted and read back exactly -/
 
